@@ -4,7 +4,7 @@
 From Coq Require Import List Ascii String NArith Bool Lia.
 From Galaxy.Base Require Import Strs.
 From Galaxy.Model Require Import Nets Netfilter Policy PolicySpec.
-From Galaxy.Proofs Require Import NetfilterP.
+From Galaxy.Proofs Require Import NetfilterP PolicyPodsP.
 Import ListNotations.
 Local Open Scope list_scope.
 
@@ -137,7 +137,7 @@ Proof.
       * intros [r E]. inversion E. subst. split; [reflexivity|exists r; reflexivity].
 Qed.
 
-Lemma has_prefix_app p r : has_prefix p (p ++ r) = true.
+Lemma has_prefix_self p r : has_prefix p (p ++ r) = true.
 Proof. apply has_prefix_iff. exists r. reflexivity. Qed.
 
 Lemma has_prefix_weaken a b x : has_prefix (a ++ b) x = true -> has_prefix a x = true.
